@@ -195,6 +195,18 @@ func (d *driver) decodeInput(c *decCase, i int) []byte {
 			return mk(x, new(big.Int).Sub(modP, y))
 		}
 		return mk(x, y)
+	case "crossfmt": // a VALID encoding in the other format: 64 bytes x || y for the compressed decoders, 32 bytes x for the uncompressed one
+		x := findX(p, "valid")
+		if unc {
+			return be32(x)
+		}
+		return append(be32(x), be32(yOf(x))...)
+	case "double": // x || x
+		x := findX(p, "valid")
+		return append(be32(x), be32(x)...)
+	case "xpad": // x followed by 32 zero bytes / (uncompressed decoder) x || y followed by 32 zero bytes
+		x := findX(p, "valid")
+		return append(mk(x, yOf(x)), make([]byte, 32)...)
 	case "zero":
 		return mk(big.NewInt(0), yOf(big.NewInt(0)))
 	case "one":
